@@ -525,8 +525,9 @@ def search_allocate_and_write(ob, seed):
     return None
 
 
-@unit("C28.O5b allocate_and_write bounds the sink by its allocation", targets=["vgi_rpc/shm.py::ShmSegment.allocate_and_write"], search=search_allocate_and_write, min_obligations=4)
-def allocate_and_write(S):
+def run_allocate_and_write(S):
+    """Driver shared with C29 (format agreement): runs the real allocate_and_write against abstract allocator / sink /
+    serializers and returns what happened."""
     import pyarrow.ipc as ipc
 
     buf = _buf_obj(S)
@@ -560,24 +561,25 @@ def allocate_and_write(S):
 
     def mk_sink(S, b, start, limit=None):
         S.event("sink", b, start, limit)
-        return SObj(None, kind="Sink", bytes_written=S.int("bytes_written"))
+        return SObj(None, kind="Sink", bytes_written=S.int("bytes_written"), start=start)
 
     S.handlers[shm._ShmSink] = mk_sink
     overflow = S.choose(2) == 1
 
     def new_stream(S, sink, schema):
-        return SObj(None, kind="Writer")
+        return SObj(None, kind="Writer", sink=sink)
 
     def write_batch(S, w, b):
         if overflow:
             raise PyRaise(SExc(shm._ShmRegionOverflowError, ("overflow",)))
+        S.event("full_stream_written", w.fields["sink"], b)
 
     S.handlers["new_ipc_stream"] = new_stream
     S.handlers["Writer.write_batch"] = write_batch
     S.handlers["Writer.close"] = lambda S, w: None
     ser_size = S.int("serialized_size")
     S.assume(ser_size > 0)
-    S.handlers["_serialize_for_shm"] = lambda S, b: SObj(None, kind="Buffer", size=ser_size)
+    S.handlers["_serialize_for_shm"] = lambda S, b: (S.event("schemaless_serialized", b), SObj(None, kind="Buffer", size=ser_size))[1]
 
     class _MV:
         pass
@@ -589,6 +591,13 @@ def allocate_and_write(S):
     S.handlers[memoryview] = mview
     S.handlers["MV.cast"] = lambda S, mv, fmt: mv
     out = S.outcome(shm.ShmSegment.allocate_and_write, me, batch)
+    return {"out": out, "is_dict": is_dict, "overflow": overflow, "buf": buf, "batch": batch, "ser_size": ser_size}
+
+
+@unit("C28.O5b allocate_and_write bounds the sink by its allocation", targets=["vgi_rpc/shm.py::ShmSegment.allocate_and_write"], search=search_allocate_and_write, min_obligations=4)
+def allocate_and_write(S):
+    R = run_allocate_and_write(S)
+    out, is_dict, overflow, buf, ser_size = R["out"], R["is_dict"], R["overflow"], R["buf"], R["ser_size"]
     S.oblige("O5b.raises_nothing_of_its_own", out.returned, kind="raises")
     if not out.returned:
         return
@@ -596,12 +605,17 @@ def allocate_and_write(S):
     if not is_dict:
         for _, b, start, limit in S.events("sink"):
             S.oblige("O5b.sink_targets_the_segment", b is buf, kind="trace")
-            S.oblige("O5b.sink_has_limit", limit is not None and len(allocs) == 1, kind="trace")
-            if limit is not None and len(allocs) == 1:
-                _, o, size = allocs[0]
+            mine = [a for a in allocs if a[1] is start]  # the allocation this sink writes into
+            S.oblige("O5b.sink_has_limit", limit is not None and len(mine) == 1, kind="trace")
+            if limit is not None and len(mine) == 1:
+                _, o, size = mine[0]
                 S.oblige("O5b.sink_region_is_the_allocation", And(start == o, limit == o + size))
         if overflow and allocs:
-            S.oblige("O5b.overflow_frees_region_and_falls_back", out.value is None and [e[1] for e in S.events("freed")] == [allocs[0][1]], kind="trace")
+            # the overflowed region is given back exactly once; whatever is returned instead (None = inline transfer, or
+            # another region) is not that region.  Which *format* a substitute region may carry is C29.O7's business.
+            freed = [e[1] for e in S.events("freed")]
+            S.oblige("O5b.overflow_frees_the_region_exactly_once", freed.count(allocs[0][1]) == 1 and all(f is allocs[0][1] or any(f is a[1] for a in allocs[1:]) for f in freed), kind="trace")
+            S.oblige("O5b.overflowed_region_is_not_handed_out", out.value is None or (len(allocs) > 1 and out.value[0] is allocs[-1][1]), kind="trace")
         if allocs and not overflow:
             S.oblige("O5b.returns_offset_of_allocation", out.value is not None and out.value[0] is allocs[0][1], kind="trace")
     else:
